@@ -261,6 +261,11 @@ def run_check(prop, tier, seed):
         if m['strata'].get(st, 0) < least:
             inconclusive.append('stratum %s seen %d times (< %d)'
                                 % (st, m['strata'].get(st, 0), least))
+    least = getattr(oracle, 'PIPELINE_CASES', {}).get(tier, 0)
+    seen = sum(v for k, v in m['strata'].items() if k.startswith('pipeline: '))
+    if seen < least:
+        inconclusive.append('only %d judged calls inside sequences of other '
+                            'transformations (< %d)' % (seen, least))
     least = getattr(oracle, 'LONG_SENTENCES', 0)
     if m['strata'].get('sentence of 120..300 tokens', 0) < least:
         inconclusive.append('only %d sentences of 120..300 tokens (< %d)'
